@@ -382,7 +382,8 @@ def build_generators(gspec):
         o = gspec["obs"]
         pin = jnp.arange(o["n"], dtype=jnp.float64)[:, None]
         val = jnp.asarray([float(v) for v in o["vals"]], dtype=jnp.float64)[:, None]
-        odata = DataGeneratorObservations(jax.random.PRNGKey(o["seed"]), d["b"], pin, val)
+        kw = {"sharding_device": cpu_sharding()} if o.get("sharding_device") else {}
+        odata = DataGeneratorObservations(jax.random.PRNGKey(o["seed"]), d["b"], pin, val, **kw)
     return data, pdata, odata
 
 
@@ -435,22 +436,32 @@ def first_point(batch_cols_json):
 # ------------------------------------------------------------------------------------------------
 # running one segment on the real jinns.solve
 # ------------------------------------------------------------------------------------------------
-def _solve_fn(n, ospec, tracked, jit, record):
+def cpu_sharding():
+    import jax
+    if "sharding" not in _CACHE:
+        _CACHE["sharding"] = jax.sharding.SingleDeviceSharding(jax.devices("cpu")[0])
+    return _CACHE["sharding"]
+
+
+def _solve_fn(n, ospec, tracked, jit, record, sharding):
     import jax
     import jinns
     opt = build_optimizer(ospec, record)
+    # with `obs_batch_sharding` solve takes its second execution path: `get_batch_sharding` (not jitted,
+    # device_put of the observation batch) and a plain Python `while break_fun(carry)` loop
+    kw = {"obs_batch_sharding": cpu_sharding()} if sharding else {}
 
     def f(params, data, pdata, odata, loss, opt_state, val):
         return jinns.solve(n, params, data, loss, opt, opt_state=opt_state, tracked_params=tracked,
-                           param_data=pdata, obs_data=odata, validation=val, verbose=False)
+                           param_data=pdata, obs_data=odata, validation=val, verbose=False, **kw)
 
     return jax.jit(f) if jit else f
 
 
-def solve_fn(n, ospec, pspec, track, jit, record=True):
-    key = ("solve", n, opt_key(ospec), repr(track), jit, bool(record))
+def solve_fn(n, ospec, pspec, track, jit, record=True, sharding=False):
+    key = ("solve", n, opt_key(ospec), repr(track), jit, bool(record), bool(sharding))
     if key not in _CACHE:
-        _CACHE[key] = _solve_fn(n, ospec, build_tracked(pspec, track), jit, record)
+        _CACHE[key] = _solve_fn(n, ospec, build_tracked(pspec, track), jit, record, sharding)
     return _CACHE[key]
 
 
@@ -510,7 +521,10 @@ def run_segment(seg, objs=None):
         opt_state = _memo("opt_state", [seg["opt"], pspec, record],
                           lambda: init_opt_state(seg["opt"], params, record))
     val, _ = build_validation(seg.get("val"), nflat)
-    f = solve_fn(n, seg["opt"], pspec, seg.get("track"), bool(seg.get("jit", True)), record)
+    sharding = bool(seg.get("sharding", False))
+    # the Python-loop path cannot be traced by an outer jit: it is always a plain call
+    f = solve_fn(n, seg["opt"], pspec, seg.get("track"), bool(seg.get("jit", True)) and not sharding, record,
+                 sharding)
     del LOG[:]
     sink = io.StringIO()
     try:
